@@ -59,6 +59,13 @@ CLAIMED = {
          "Real runs compare every slot of shuffled multi-observable histories bit-for-bit with the point requested alone.",
          "Trusted: Coq kernel+vm_compute; harness; that an object's result depends only on its own kinematics and the configuration is assumed by the theorem and checked "
          "bitwise by the patrol and by the ScaleVariations correspondence (shared manager across nf).", "4 C14"),
+ "C15": ("Coq theorem (list induction: transposition of the kinematics columns, zip of orders/values/errors) on a hand-written model of dump_tar/load_tar, polymorphic in the "
+         "tensor payload; tied by differential correspondence that opens the real tar (metadata.yaml + npz) and compares it and the reloaded objects with the model",
+         "Proof: for any payload type, any number of points and any uniform order-key list in any insertion order, SF and XS alike, load(dump rs) = rs, and the dump succeeds on "
+         "every non-empty uniform list; empty lists are special-cased by the code (checked by the harness). Real outputs go through two tar and two YAML cycles with bit-for-bit "
+         "comparison of every field, the runcards and predictions at xiR, xiF != 1. Two defects found this way were fixed (c7079a87, 3514e826).",
+         "Trusted: Coq kernel+vm_compute; harness; PyYAML / npz / tarfile / float-text conversion are a transport exercised on real files, not modelled; the YAML format has no "
+         "structural transformation and is covered by the patrol only.", "4 C15"),
  "C16": ("exhaustive evaluation inside Coq (vm_compute) of a hand-written outcome model (validation, TMC availability, module/class and dictionary look-ups of the Combiner model "
          "over the regenerated inventory) on the complete discrete lattice, sharded per kind; model tied by differential correspondence on real run_yadism calls",
          "Proof over the complete lattice of 25920 cells (6 kinds x 5 heavynesses x EM/NC/CC x 5 schemes with FONLL parts x NfFF 3..6 x PTO 0..3 x TMC off/on): no cell ends in an "
